@@ -37,7 +37,14 @@ def check(ctx: Ctx) -> str:
     ctx.check(len(r_raw) == 1 and sorted(gs) == sorted([("head", True), ("isinstance(raw, str)", False), ("len(head) == 1", True)]), "single-native", "nativetypes:native_concat", "single non-string value",
               f"a single piece that is not a string must be returned itself (guards found: {gs}); any other condition converts native values to text or returns text pieces unparsed", nc.loc(), detail={"guards": gs})
     ctx.check("raw = head[0]" in s, "single:first", "nativetypes:native_concat", "the single piece", "the single piece is head[0]", nc.loc())
-    ctx.check("if isinstance(values, GeneratorType):\n            values = chain(head, values)" in s and "raw = ''.join([str(v) for v in values])" in s, "rechain", "nativetypes:native_concat", "generator re-chained", "after peeking, a generator must be re-chained with the peeked head before joining; all pieces are joined with str()", nc.loc())
+    rech = [a for a in ast.walk(nc.node) if isinstance(a, ast.Assign) and ast.unparse(a.targets[0]) == "values" and ast.unparse(a.value) == "chain(head, values)"]
+    joins = [a for a in ast.walk(nc.node) if isinstance(a, ast.Assign) and ast.unparse(a.targets[0]) == "raw" and isinstance(a.value, ast.Call) and ast.unparse(a.value.func) == "''.join" and len(a.value.args) == 1 and isinstance(a.value.args[0], (ast.ListComp, ast.GeneratorExp))]
+    ok_re = len(rech) == 1 and ("isinstance(values, GeneratorType)", True) in astq.guard_atoms(nc.node, rech[0]) and len(joins) == 1 and (rech[0].lineno, rech[0].col_offset) < (joins[0].lineno, joins[0].col_offset)
+    if ok_re:
+        comp = joins[0].value.args[0]  # type: ignore[attr-defined]
+        tv = ast.unparse(comp.generators[0].target)
+        ok_re = len(comp.generators) == 1 and ast.unparse(comp.generators[0].iter) == "values" and not comp.generators[0].ifs and ast.unparse(comp.elt) == f"str({tv})"
+    ctx.check(ok_re, "rechain", "nativetypes:native_concat", "generator re-chained", "after peeking, a generator must be re-chained with the peeked head before joining; all pieces are joined with str()", nc.loc())
     le = [c for c in astq.calls(nc.nnode) if astq.callee(c) == "literal_eval"]  # normal form: a local naming the parsed tree is inlined
     ok = len(le) == 1 and ast.unparse(le[0].args[0]).replace(" ", "") == "parse(raw,mode='eval')"
     ctx.check(ok, "literal_eval", "nativetypes:native_concat", "literal parsing", "the text must be parsed with literal_eval(parse(raw, mode='eval'))", nc.loc())
